@@ -30,6 +30,7 @@ makes the shard INCONCLUSIVE.
 from __future__ import annotations
 
 import asyncio
+import os
 import queue
 import select as _real_select
 import socket
@@ -53,12 +54,13 @@ META = {
                   "recorded trace of both threads is checked online against the handshake specification, select overlap counter, "
                   "thread affinity of callbacks, token conservation at barriers and thread termination after close.",
     "level_note": "The '(model checked)' half of the quantifier is not attempted: interleavings are sampled, evidence reports how "
-                  "many distinct (thread,event) sequences were seen. Linux select(); fds are registered as ints (as IOLoop does) or "
-                  "as socket objects. Liveness is bounded: 'dispatched before the barrier completes'.",
+                  "many distinct (thread,event) sequences were seen. Linux select(); fds are registered as ints (as IOLoop does), "
+                  "as socket objects (fileno() of a closed one is -1) or as non-socket file objects (raw FileIO / BufferedReader "
+                  "over a dup of the descriptor: fileno() of a closed one RAISES ValueError). Liveness is bounded: 'dispatched before the barrier completes'.",
     "design_ref": "DESIGN.md §4 C40",
     "engine": "shake+monitor",
 }
-RULE = ("a case = (1-8 socketpairs, fd key type int|socket, script over {add_r, rm_r, readd_r, add_w, rm_w, burst from a writer "
+RULE = ("a case = (1-8 socketpairs, fd key type int|socket|file (unbuffered FileIO)|bfile (BufferedReader), script over {add_r, rm_r, readd_r, add_w, rm_w, burst from a writer "
         "thread, send from the loop thread, peer close, remove+close, yield, barrier}, close path in {close, shutdown_asyncgens+close, "
         "close twice, _atexit_callback+close, close before the loop ever ran, close with a dispatch still queued}, shake seed); "
         "non-trivial if the script has >=1 registration change after the first barrier or >=2 fds, and >=1 token; distinct by case tuple")
@@ -69,7 +71,8 @@ ASSUMPTIONS = [
     "closing an fd that is still registered is outside the statement (scripts remove before closing)",
 ]
 REQUIRED_COUNTERS = ["oracle_evals", "runs", "trace_events", "select_calls", "handle_selects", "tokens_consumed",
-                     "barriers", "closes_checked", "writer_dispatches", "shake_lines"]
+                     "barriers", "closes_checked", "writer_dispatches", "shake_lines", "runs_key_sock", "runs_key_file",
+                     "runs_key_bfile", "file_object_keys_closed_after_remove"]
 SHARD_TIMEOUT = {"quick": 200, "thorough": 3000}
 WATCHDOG = 45.0
 
@@ -302,6 +305,12 @@ def install_hooks():
 # ---------------------------------------------------------------------------
 # generator
 
+# how an fd is named in add_reader/add_writer/remove_*: the raw descriptor, the socket object, or a file object that is
+# not a socket (io.FileIO / io.BufferedReader over a dup of the descriptor; once closed its fileno() raises ValueError
+# where a closed socket's returns -1)
+KEY_TYPES = ["int", "int", "int", "sock", "file", "bfile"]
+FILE_KEYS = ("file", "bfile")
+
 CLOSE_MODES = ["close", "close", "asyncgens", "twice", "atexit", "never_started", "queued"]
 
 
@@ -332,7 +341,7 @@ def gen_case(rng):
             ops.append(("rm_close", i))
         else:
             ops.append(("peer_close", i))
-    return {"n": n, "key": rng.choice(["int", "int", "sock"]), "ops": ops, "close": rng.choice(CLOSE_MODES),
+    return {"n": n, "key": rng.choice(KEY_TYPES), "ops": ops, "close": rng.choice(CLOSE_MODES),
             "p_yield": rng.choice([0.2, 0.4]), "p_sleep": rng.choice([0.02, 0.08, 0.2]), "sseed": rng.randrange(1 << 30)}
 
 
@@ -358,6 +367,19 @@ def directed_cases():
                        ("rm_close", 0), ("send", 3, 1), ("barrier",), ("rm_close", 1), ("send", 3, 1), ("barrier",),
                        ("rm_close", 2), ("send", 3, 1), ("barrier",)],
                "close": "close", "p_yield": 0.3, "p_sleep": 0.2, "sseed": sseed}
+    # the same with non-socket file objects as keys (a closed one raises ValueError from fileno()); readers and writers
+    for key, sseed in (("file", 0), ("file", 1), ("file", 2), ("bfile", 3), ("bfile", 4), ("file", 5)):
+        yield {"n": 4, "key": key,
+               "ops": [("add_r", 0), ("add_r", 1), ("add_r", 2), ("add_r", 3), ("send", 3, 1), ("barrier",),
+                       ("rm_close", 0), ("send", 3, 1), ("barrier",), ("rm_close", 1), ("send", 3, 1), ("barrier",),
+                       ("rm_close", 2), ("send", 3, 1), ("barrier",)],
+               "close": "close", "p_yield": 0.3, "p_sleep": 0.2, "sseed": sseed}
+    for key, sseed in (("file", 6), ("bfile", 7)):
+        yield {"n": 3, "key": key,
+               "ops": [("add_r", 2), ("send", 2, 1), ("barrier",), ("add_w", 0), ("rm_close", 0), ("send", 2, 1),
+                       ("barrier",), ("add_r", 1), ("add_w", 1), ("send", 2, 2), ("rm_close", 1), ("burst", 2, 3),
+                       ("barrier",)],
+               "close": "asyncgens", "p_yield": 0.3, "p_sleep": 0.2, "sseed": sseed}
     yield {"n": 1, "key": "int", "ops": [("add_r", 0)], "close": "never_started", "p_yield": 0.3, "p_sleep": 0.05,
            "sseed": 3}
 
@@ -376,6 +398,7 @@ class Run:
         self.loop = None
         self.real = None
         self.pairs = []
+        self.keys = []          # what names pair i's fd in add_*/remove_*: int | socket | file object
         self.after_close = None
         self.rescue = False
 
@@ -404,6 +427,16 @@ def scenario(run):
         a, b = socket.socketpair()
         a.setblocking(False)
         pairs.append([a, b])
+        if case["key"] == "int":
+            run.keys.append(a.fileno())
+        elif case["key"] == "sock":
+            run.keys.append(a)
+        elif case["key"] == "file":
+            run.keys.append(os.fdopen(os.dup(a.fileno()), "r+b", 0))
+        elif case["key"] == "bfile":
+            run.keys.append(os.fdopen(os.dup(a.fileno()), "rb"))
+        else:
+            raise ValueError(case["key"])
     run.pairs = pairs
     S = {"reg_r": set(), "reg_w": set(), "dead": set(), "sent": [0] * n, "got": [0] * n, "buf": [b""] * n,
          "eof_sent": set(), "eof_seen": set(), "w_pending": set(), "w_disp": 0, "bad_thread": [], "order_bad": [],
@@ -413,7 +446,7 @@ def scenario(run):
     wq = queue.Queue()
 
     def key(i):
-        return pairs[i][0].fileno() if case["key"] == "int" else pairs[i][0]
+        return run.keys[i]
 
     progress = None
 
@@ -557,6 +590,9 @@ def scenario(run):
                 S["reg_r"].discard(i)
                 S["reg_w"].discard(i)
                 S["w_pending"].discard(i)
+                if case["key"] in FILE_KEYS:
+                    run.keys[i].close()         # from here on its fileno() raises ValueError
+                    S["files_closed"] = S.get("files_closed", 0) + 1
                 pairs[i][0].close()
                 S["dead"].add(i)
             elif k == "peer_close":
@@ -676,12 +712,11 @@ def _analyse_stuck(run):
         if i in S["dead"]:
             continue
         a = run.pairs[i][0]
-        k = a.fileno() if run.case["key"] == "int" else a
+        k = run.keys[i]
         if k in st._readers and _peek_readable(a):
             owed.append(("r", i, k))
     for i in sorted(S["w_pending"]):
-        a = run.pairs[i][0]
-        k = a.fileno() if run.case["key"] == "int" else a
+        k = run.keys[i]
         if k in st._writers:
             owed.append(("w", i, k))
     if not owed:
@@ -711,6 +746,21 @@ def _analyse_stuck(run):
                 "selector thread waits for new select arguments, no _handle_select is queued or running and the loop is idle "
                 "while a registered fd is ready", base)
     return None
+
+
+def _close_all(run):
+    for k in run.keys:
+        if hasattr(k, "close"):
+            try:
+                k.close()
+            except (OSError, ValueError):
+                pass
+    for a, b in run.pairs:
+        for s in (a, b):
+            try:
+                s.close()
+            except OSError:
+                pass
 
 
 def run_case(case, ctx):
@@ -752,6 +802,7 @@ def run_case(case, ctx):
             sh.uninstall()
             MON = None if stuck is None and inconclusive is None else MON
     ctx.count("runs")
+    ctx.count("runs_key_" + case["key"])
     ctx.count("shake_lines", sh.lines)
     ctx.count("shake_injections", sh.sleeps + sh.yields)
     with mon.lock:
@@ -794,12 +845,7 @@ def run_case(case, ctx):
             tpa._selector_loops.clear()           # keep tornado's atexit hook from joining the stuck thread
         else:
             ctx.count("stuck_runs_rescued")
-            for a_, b_ in run.pairs:
-                for s_ in (a_, b_):
-                    try:
-                        s_.close()
-                    except OSError:
-                        pass
+            _close_all(run)
         return
     if inconclusive is not None:
         ABORT.append("inconclusive")
@@ -831,6 +877,7 @@ def run_case(case, ctx):
         ctx.count("barriers", S["barriers"])
         ctx.count("writer_dispatches", S["w_disp"])
         ctx.count("eof_dispatches", len(S["eof_seen"]))
+        ctx.count("file_object_keys_closed_after_remove", S.get("files_closed", 0))
         ctx.check(not S["bad_thread"], "affinity/callback-off-the-loop-thread",
                   "a reader/writer callback ran on a thread other than the event-loop thread", {"which": S["bad_thread"][:3]})
         ctx.check(not S["order_bad"], "tokens/out-of-order-or-duplicated", "tokens were delivered out of order",
@@ -838,12 +885,7 @@ def run_case(case, ctx):
         ctx.check(not S.get("rm_bool"), "remove/return-value-wrong",
                   "remove_reader/remove_writer returned a value that does not reflect whether the fd was registered",
                   {"first": S.get("rm_bool", [])[:3]})
-    for a, b in run.pairs:
-        for s in (a, b):
-            try:
-                s.close()
-            except OSError:
-                pass
+    _close_all(run)
     ntok = sum(S["sent"]) if S else 0
     nontriv = bool(S) and ntok >= 1 and (S["changes_after_barrier"] >= 1 or case["n"] >= 2)
     ctx.mark((case["n"], case["key"], tuple(case["ops"]), case["close"], case["p_yield"], case["p_sleep"], case["sseed"]),
